@@ -10,7 +10,7 @@ sd = os.path.join(wt, "_seeded")
 dst = os.path.join(V, "seeded", name)
 os.makedirs(dst, exist_ok=True)
 def run(cmd, **kw):
-    p = subprocess.run(cmd, shell=True, stdout=subprocess.PIPE, stderr=subprocess.STDOUT, text=True, **kw)
+    p = subprocess.run(cmd, shell=True, stdout=subprocess.PIPE, stderr=subprocess.STDOUT, text=True, errors="replace", **kw)
     return p.returncode, p.stdout
 def git(args):
     return run("git -C %s %s" % (wt, args))
